@@ -6,10 +6,18 @@
      M.kind                  "library" | "base" | "custom" | "mixture" | "void"
      M.inst                  "ok" if cls() returned, else "exception:<type>"
      M.entries               sequence of [nuc, ppb]: massFrac after construction; ppb = mass fraction in parts per billion
-     M.ranges                sequence of [label, stated, unit, fn, lo, hi, samples]: fn evaluated at temperatures from lo to hi
+     M.instances             sequence of [inst, entries, probes]: the class is instantiated three times, round robin over all classes
+                             (instance k of every class exists before instance k+1 of any class); entries = [nuc, ppb, x] with x the
+                             exact decimal rendering of the fraction; probes = <<fn, status, q, x>> of density, pseudoDensity and
+                             linearExpansionPercent at the middle of the first range, taken after everything else has been evaluated.
+                             M.inst / M.entries are those of the first instance; the ranges are evaluated on the first instance.
+     M.ranges                sequence of [label, stated, unit, fn, both, lo, hi, samples]: fn evaluated at temperatures from lo to hi
                              (both end points exactly as stated, in the stated unit, thousandths of a degree);
-                             samples = sequence of <<t, status, q>>: status "ok" | "none" | "complex" | "nonfinite" | "type:.." |
-                             "exception:..", q = value in millionths rounded away from zero (q > 0 <=> value > 0).
+                             samples = sequence of <<t, status, q, status2, q2>>: status "ok" | "none" | "complex" | "nonfinite" |
+                             "type:.." | "exception:..", q = value in millionths rounded away from zero (q > 0 <=> value > 0);
+                             status, q: asked in the stated unit (Tk= or Tc=); status2, q2: the same temperature asked through
+                             the other entry point (both = TRUE).  both = FALSE: fn is one of the derived functions that only take
+                             Celsius, linearExpansionFactor(Tc = t, T0 = lo) and getThermalExpansionDensityReduction(lo, t).
                              stated = TRUE: the range is an entry of the class' propertyValidTemperature that concerns
                              density or expansion; FALSE: the class states no such range and a nominal 25..600 C is probed.
    Interpretation choices:
@@ -23,6 +31,13 @@
        linearExpansionPercent (and volumetricExpansion where the class states a range for it); it must be a finite real.
      * all functions are probed over every stated density / expansion range of the class: a solid's density is derived from its
        expansion, so the range stated for one is the range over which the other is used.
+     * "can be instantiated" is read for every instantiation, not only the first one in a process: every further instance must be
+       the same material as the first (InstanceIndependent: same composition, digit for digit, same probed values); since the
+       first instance satisfies the composition and density clauses, so do the others.
+     * "at every temperature in its stated range" does not depend on whether the caller holds the temperature in Kelvin or in
+       Celsius: both entry points of every property must answer, and agree within one millionth (UnitsAgree); the functions
+       components call with Celsius only -- linearExpansionFactor, getThermalExpansionDensityReduction -- must return finite
+       reals, the density reduction a positive one (DerivedFinite).
      * a class that states no range is still required to have a finite positive density somewhere: the nominal range is a
        separate clause family (Nominal...), so that the two can be told apart. *)
 EXTENDS Integers, Sequences, FiniteSets, TLC, SequencesExt
@@ -61,15 +76,46 @@ RangeFailures(M, clause, fns, stated, positive) ==
         r \in { k \in 1..Len(M.ranges) : /\ M.ranges[k].fn \in fns /\ M.ranges[k].stated = stated
                                          /\ Bad(M.ranges[k], positive) # {} } }
 
+(* both entry points answer alike: same status, values within one millionth (the conversion t -+ 273.15 costs an ulp) *)
+Differ(R) == { j \in 1..Len(R.samples) : \/ R.samples[j][2] # R.samples[j][4]
+                                         \/ R.samples[j][3] - R.samples[j][5] > 1 \/ R.samples[j][5] - R.samples[j][3] > 1 }
+UnitsAgree(M) ==
+    IF ~(IsLibrary(M) /\ M.inst = "ok") THEN {} ELSE
+    { MFail("UnitsAgree", M.ranges[r].fn, M.name,
+            LET b == Differ(M.ranges[r])
+                j == CHOOSE x \in b : \A y \in b : x <= y
+            IN  [range |-> M.ranges[r].label, statedUnit |-> M.ranges[r].unit, firstAtMilliDeg |-> M.ranges[r].samples[j][1],
+                 inStatedUnit |-> <<M.ranges[r].samples[j][2], M.ranges[r].samples[j][3]>>,
+                 status |-> M.ranges[r].samples[j][4], micro |-> M.ranges[r].samples[j][5], of |-> Len(M.ranges[r].samples), bad |-> Cardinality(b)]) :
+        r \in { k \in 1..Len(M.ranges) : M.ranges[k].both /\ Differ(M.ranges[k]) # {} } }
+
+(* every further instance is the first one again *)
+InstanceIndependent(M) ==
+    { MFail("InstanceIndependent", what, M.name,
+            [instance |-> k, inst |-> M.instances[k].inst,
+             sumPpb |-> SumSeq([j \in 1..Len(M.instances[k].entries) |-> M.instances[k].entries[j].ppb]),
+             entries |-> Len(M.instances[k].entries), firstHas |-> Len(M.instances[1].entries), probes |-> M.instances[k].probes]) :
+        <<k, what>> \in { p \in (2..Len(M.instances)) \X {"inst", "composition", "probe"} :
+                            \/ p[2] = "inst" /\ M.instances[p[1]].inst # M.instances[1].inst
+                            \/ p[2] = "composition" /\ M.instances[p[1]].entries # M.instances[1].entries
+                            \/ p[2] = "probe" /\ M.instances[p[1]].probes # M.instances[1].probes } }
+    \cup (IF Len(M.instances) >= 3 THEN {} ELSE { MFail("InstanceIndependent", "count", M.name, Len(M.instances)) })
+
 DensityFns == {"density"}
 PseudoFns == {"pseudoDensity"}
 ExpansionFns == {"linearExpansionPercent", "volumetricExpansion"}
+FactorFns == {"linearExpansionFactor"}
+ReductionFns == {"getThermalExpansionDensityReduction"}
 DensityPositive(M)              == IF IsLibrary(M) /\ M.inst = "ok" THEN RangeFailures(M, "DensityPositive", DensityFns, TRUE, TRUE) ELSE {}
 PseudoDensityPositive(M)        == IF IsLibrary(M) /\ M.inst = "ok" THEN RangeFailures(M, "PseudoDensityPositive", PseudoFns, TRUE, TRUE) ELSE {}
 ExpansionFinite(M)              == IF IsLibrary(M) /\ M.inst = "ok" THEN RangeFailures(M, "ExpansionFinite", ExpansionFns, TRUE, FALSE) ELSE {}
 NominalDensityPositive(M)       == IF IsLibrary(M) /\ M.inst = "ok" THEN RangeFailures(M, "NominalDensityPositive", DensityFns, FALSE, TRUE) ELSE {}
 NominalPseudoDensityPositive(M) == IF IsLibrary(M) /\ M.inst = "ok" THEN RangeFailures(M, "NominalPseudoDensityPositive", PseudoFns, FALSE, TRUE) ELSE {}
 NominalExpansionFinite(M)       == IF IsLibrary(M) /\ M.inst = "ok" THEN RangeFailures(M, "NominalExpansionFinite", ExpansionFns, FALSE, FALSE) ELSE {}
+DerivedFinite(M)                == IF IsLibrary(M) /\ M.inst = "ok"
+                                   THEN RangeFailures(M, "DerivedFinite", FactorFns, TRUE, FALSE) \cup RangeFailures(M, "DerivedFinite", ReductionFns, TRUE, TRUE) ELSE {}
+NominalDerivedFinite(M)         == IF IsLibrary(M) /\ M.inst = "ok"
+                                   THEN RangeFailures(M, "NominalDerivedFinite", FactorFns, FALSE, FALSE) \cup RangeFailures(M, "NominalDerivedFinite", ReductionFns, FALSE, TRUE) ELSE {}
 
 (* the samples really span the stated range: first sample at lo, last at hi (the export cannot quietly skip the end points) *)
 RangeCovered(M) ==
